@@ -34,8 +34,10 @@ func vp_C04_hashfail() {
 		_ = json.Unmarshal(m["content"], &c)
 		nb := vpNondetStringN("newbody", 2)
 		var old string
-		_ = json.Unmarshal(c["body"], &old)
-		vpAssume(nb != old)
+		if _, has := c["body"]; has {
+			_ = json.Unmarshal(c["body"], &old)
+			vpAssume(nb != old)
+		}
 		c["body"] = vpJVal(nb)
 		m["content"], _ = json.Marshal(c)
 	case "extra-top-key":
@@ -75,7 +77,7 @@ func vp_C04_hashfail() {
 	vpAssert("state-key", vpSameStateKey(got.StateKey(), ev.StateKey()))
 	// `hashes` itself is kept by redaction, so replacing it legitimately changes the ID and breaks the signature;
 	// the "same ID / same signature validity" clause concerns alterations of redactable material only.
-	if verImpl.EventIDFormat() != EventIDFormatV1 && !protectedAltered {
+	if vpSpecTraits(ver).idFormat != EventIDFormatV1 && !protectedAltered {
 		vpAssert("id-of-original", got.EventID() == ev.EventID())
 	}
 	if tamper == "top-level-redacts" && algo < 5 {
@@ -87,11 +89,15 @@ func vp_C04_hashfail() {
 	vpAssert("content-parses", json.Unmarshal(got.Content(), &c) == nil)
 	_, hasBody := c["body"]
 	_, hasMembership := c["membership"]
+	var origC map[string]spec.RawJSON
+	_ = json.Unmarshal(ev.Content(), &origC)
+	_, origHasBody := origC["body"]
 	if wantRedacted {
-		vpAssert("body-hidden", hasBody == vpKeepContent(algo, got.Type(), "body"))
+		bodyInInput := origHasBody || tamper == "content-key"
+		vpAssert("body-hidden", hasBody == (bodyInInput && vpKeepContent(algo, got.Type(), "body")))
 		vpAssert("membership-per-keeplist", hasMembership == vpKeepContent(algo, got.Type(), "membership"))
 	} else {
-		vpAssert("body-intact", hasBody && hasMembership)
+		vpAssert("body-intact", hasBody == origHasBody && hasMembership)
 	}
 	var top map[string]spec.RawJSON
 	vpAssert("json-parses", json.Unmarshal(got.JSON(), &top) == nil)
